@@ -12,7 +12,7 @@ impl_kiter!([T: konst::iter::Step] kr::RangeIterRev<T>, T);
 impl_kiter!([T: konst::iter::Step] kr::RangeInclusiveIter<T>, T);
 impl_kiter!([T: konst::iter::Step] kr::RangeInclusiveIterRev<T>, T);
 
-const RULE: &str = "cases = (type, start, end, a..b | a..=b | a.. , history pattern of front/back steps run 2 steps past exhaustion or to a step cap); oracle = core::ops::{Range,RangeInclusive,RangeFrom} iterators stepped with next/next_back, through iter::into_iter! (by value and by reference), its .rev() (roles swapped), .rev().rev(), and iter::for_each! with and without rev(); a.. is never asked to yield MAX (std and konst both overflow-panic there in debug builds); non-trivial = range touches MIN/MAX/the surrogate gap and the history uses both ends, or the range is inverted/empty; distinct by the whole tuple";
+const RULE: &str = "cases = (type, start, end, a..b | a..=b | a.. , history pattern of front/back steps run 2 steps past exhaustion or to a step cap); oracle = core::ops::{Range,RangeInclusive,RangeFrom} iterators stepped with next/next_back, through iter::into_iter! (by value and by reference), its .rev() (roles swapped), .rev().rev(), and iter::for_each! with and without rev(), and for_range! (integer types, a..b, with break / continue in the body); a.. is never asked to yield MAX (std and konst both overflow-panic there in debug builds); non-trivial = range touches MIN/MAX/the surrogate gap and the history uses both ends, or the range is inverted/empty; distinct by the whole tuple";
 
 #[derive(Serialize, Deserialize, Debug, Clone, Copy, Hash, PartialEq, Eq)]
 enum Ty {
@@ -69,6 +69,24 @@ trait Num: konst::iter::Step + Copy + PartialEq + PartialOrd + std::fmt::Debug +
     fn touches_edge(a: Self, b: Self) -> bool;
     /// how many values x satisfy a <= x < MAX (capped), for `a..`
     fn room_below_max(a: Self) -> u128;
+    /// `konst::for_range!{x in a..b => ..}` capped at `cap` items, visiting order; with `skip_odd` every second
+    /// iteration leaves through `continue` before the push (None: the macro does not accept this type)
+    fn for_range(_a: Self, _b: Self, _cap: u32, _skip_odd: bool) -> Option<Vec<Self>> {
+        None
+    }
+}
+macro_rules! for_range_body {
+    ($a:ident, $b:ident, $cap:ident, $skip_odd:ident) => {{
+        let mut got = Vec::new();
+        let mut n = 0u32;
+        konst::for_range! {x in $a..$b =>
+            if n >= $cap { break; }
+            n += 1;
+            if $skip_odd && n % 2 == 0 { continue; }
+            got.push(x);
+        }
+        Some(got)
+    }};
 }
 macro_rules! impl_num {
     ($($t:ty),*) => {$(
@@ -90,6 +108,9 @@ macro_rules! impl_num {
             fn room_below_max(a: $t) -> u128 {
                 (<$t>::MAX as i128).wrapping_sub(a as i128) as u128
             }
+            fn for_range(a: $t, b: $t, cap: u32, skip_odd: bool) -> Option<Vec<$t>> {
+                for_range_body!(a, b, cap, skip_odd)
+            }
         }
     )*};
 }
@@ -110,6 +131,9 @@ impl Num for u128 {
     }
     fn room_below_max(a: u128) -> u128 {
         u128::MAX - a
+    }
+    fn for_range(a: u128, b: u128, cap: u32, skip_odd: bool) -> Option<Vec<u128>> {
+        for_range_body!(a, b, cap, skip_odd)
     }
 }
 impl Num for char {
@@ -207,7 +231,15 @@ where
         }};
     }
     match c.form {
-        Form::Exclusive => double_ended!(a..b, "a..b"),
+        Form::Exclusive => {
+            double_ended!(a..b, "a..b");
+            for skip_odd in [false, true] {
+                if let Some(got) = T::for_range(a, b, cap, skip_odd) {
+                    let want: Vec<T> = (a..b).take(cap as usize).enumerate().filter(|(i, _)| !(skip_odd && i % 2 == 1)).map(|(_, x)| x).collect();
+                    ensure!(got == want, "for_range!{{x in {:?}..{:?}}} (continue on every second item: {skip_odd}): konst {:?} std {:?}", a, b, got, want);
+                }
+            }
+        }
         Form::Inclusive => double_ended!(a..=b, "a..=b"),
         Form::From => {
             // `room` values lie in a..MAX (MAX itself excluded): std can yield exactly those without
